@@ -11,7 +11,7 @@ INC := -I$(REPO)/include -Isimrt -Iharness
 WARN := -Wall -Wno-unused-parameter -Wno-unused-function -Wno-deprecated-declarations
 SIMFLAGS := $(STD) -O1 -g -fPIC -fno-omit-frame-pointer $(WARN)
 ifeq ($(FLAVOUR),asan)
-  SAN := -fsanitize=address,undefined -fno-sanitize-recover=undefined -fno-sanitize=vptr
+  SAN := -fsanitize=address,undefined -fno-sanitize-recover=undefined -fno-sanitize=vptr,nonnull-attribute
 else ifeq ($(FLAVOUR),tsan)
   SAN := -fsanitize=thread -DSIM_TSAN=1
   WRAPOPS := load store exchange fetch_add fetch_sub compare_exchange_strong compare_exchange_weak
